@@ -6,8 +6,10 @@ pub mod api;
 pub mod common;
 pub mod exact;
 pub mod fingerprint;
+pub mod hist;
 pub mod r#gen;
 pub mod model;
 pub mod props;
 pub mod refcheck;
 pub mod rng;
+pub mod tri;
